@@ -12,6 +12,10 @@ import (
 	"golang.org/x/tools/go/ssa"
 )
 
+// Tainted marks a package-level variable whose initialiser could not be
+// modelled; any use outside package initialisation is reported as unsupported.
+type Tainted struct{ Why string }
+
 type deferred struct {
 	fn   Value
 	args []Value
@@ -56,6 +60,7 @@ type Interp struct {
 	pathObjs       int
 	curFrames      []*frame
 	initPkg        *ssa.Package
+	initCache      map[*ssa.Package]map[*ssa.Global]Value
 	specLogs       []*writeLog
 	specGuards     []*Term
 	specStepLimit  int
@@ -123,33 +128,91 @@ func (in *Interp) global(g *ssa.Global) *Value {
 	if p, ok := in.globals[g]; ok {
 		return p
 	}
+	if g.Pkg != nil && !in.pkgInit[g.Pkg] {
+		in.pkgInit[g.Pkg] = true
+		in.initPackage(g.Pkg)
+		if p, ok := in.globals[g]; ok {
+			return p
+		}
+	}
+	return in.newGlobal(g)
+}
+
+func (in *Interp) newGlobal(g *ssa.Global) *Value {
 	elem := g.Type().(*types.Pointer).Elem()
 	p := new(Value)
 	*p = zero(elem)
 	in.globals[g] = p
 	if v, ok := in.globalIntrinsic(g); ok {
 		*p = v
-		return p
-	}
-	if g.Pkg != nil && !in.pkgInit[g.Pkg] {
-		in.pkgInit[g.Pkg] = true
-		if strings.HasPrefix(g.Pkg.Pkg.Path(), in.RootPrefix) || initAllow[g.Pkg.Pkg.Path()] {
-			in.runPkgInit(g.Pkg)
-		}
-	}
-	// registered-error globals (*errorsmod.Error) left nil become distinct sentinels
-	if elem.String() == "*cosmossdk.io/errors.Error" {
-		if pv, ok := (*p).(*Value); ok && pv == nil {
-			*p = in.sentinelError(g.Pkg.Pkg.Path()+"."+g.Name(), g.Name()).(Iface).V
-		}
-	}
-	// error-typed globals of packages we do not initialise become sentinels
-	if _, isIface := elem.Underlying().(*types.Interface); isIface {
-		if iv, ok := (*p).(Iface); ok && iv.T == nil && iv.V == nil && elem.String() == "error" {
-			*p = in.sentinelError(g.Pkg.Pkg.Path()+"."+g.Name(), g.Name())
-		}
 	}
 	return p
+}
+
+// initPackage runs (once per program, cached across paths) the variable
+// initialisers of a package.  Variables whose initialiser cannot be modelled
+// are left Tainted.
+func (in *Interp) initPackage(pkg *ssa.Package) {
+	if cached, ok := in.initCache[pkg]; ok {
+		seen := map[*Value]*Value{}
+		for g, v := range cached {
+			p := new(Value)
+			*p = deepCopy(v, seen)
+			in.globals[g] = p
+		}
+		return
+	}
+	var members []*ssa.Global
+	for _, m := range pkg.Members {
+		if g, ok := m.(*ssa.Global); ok {
+			members = append(members, g)
+			in.newGlobal(g)
+		}
+	}
+	initFn := pkg.Func("init")
+	if initFn != nil && initFn.Blocks != nil {
+		// pre-taint every variable that has an initialiser
+		for _, b := range initFn.Blocks {
+			for _, instr := range b.Instrs {
+				if st, ok := instr.(*ssa.Store); ok {
+					if g, ok := st.Addr.(*ssa.Global); ok && g.Pkg == pkg && g.Name() != "init$guard" {
+						if _, isIntr := in.globalIntrinsic(g); !isIntr {
+							*in.globals[g] = Tainted{Why: pkg.Pkg.Path() + "." + g.Name()}
+						}
+					}
+				}
+			}
+		}
+		in.runPkgInit(pkg)
+	}
+	// registered-error / error-typed variables that stayed unmodelled become distinct sentinels
+	for _, g := range members {
+		p := in.globals[g]
+		elem := g.Type().(*types.Pointer).Elem()
+		_, tainted := (*p).(Tainted)
+		if elem.String() == "*cosmossdk.io/errors.Error" {
+			if pv, ok := (*p).(*Value); (ok && pv == nil) || tainted {
+				*p = in.sentinelError(pkg.Pkg.Path()+"."+g.Name(), g.Name()).(Iface).V
+			}
+		} else if elem.String() == "error" {
+			iv, ok := (*p).(Iface)
+			if (ok && iv.T == nil && iv.V == nil) || tainted {
+				*p = in.sentinelError(pkg.Pkg.Path()+"."+g.Name(), g.Name())
+			}
+		}
+		if v, ok := in.globalIntrinsic(g); ok {
+			*p = v
+		}
+	}
+	snap := map[*ssa.Global]Value{}
+	seen := map[*Value]*Value{}
+	for _, g := range members {
+		snap[g] = deepCopy(*in.globals[g], seen)
+	}
+	if in.initCache == nil {
+		in.initCache = map[*ssa.Package]map[*ssa.Global]Value{}
+	}
+	in.initCache[pkg] = snap
 }
 
 var initAllow = map[string]bool{}
@@ -242,6 +305,9 @@ func (fr *frame) get(v ssa.Value) Value {
 		return fr.in.global(v)
 	}
 	if r, ok := fr.env[v]; ok {
+		if t, bad := r.(Tainted); bad && fr.in.lenient == 0 {
+			fr.in.unsupp("use of a package-level variable whose initialiser is not modelled (%s)", t.Why)
+		}
 		return r
 	}
 	panic(fmt.Sprintf("get: no value for %T %v %s in %s", v, v, v.Name(), fr.fn))
@@ -330,7 +396,7 @@ func (in *Interp) callFunction(fn *ssa.Function, args []Value, env []Value, pos 
 	}
 	if fn.Blocks == nil {
 		if in.lenient > 0 {
-			return zeroResult(fn.Signature)
+			return Tainted{Why: "external function " + name}
 		}
 		in.unsupp("external function without body: %s", name)
 	}
@@ -483,6 +549,11 @@ const (
 
 func (fr *frame) visit(instr ssa.Instruction) int {
 	in := fr.in
+	if in.lenient > 0 {
+		if done, ctl := fr.taintStep(instr); done {
+			return ctl
+		}
+	}
 	switch instr := instr.(type) {
 	case *ssa.DebugRef:
 	case *ssa.UnOp:
@@ -1220,10 +1291,52 @@ func (in *Interp) lenientCall(fn Value, args []Value, instr *ssa.Call) (res Valu
 			default:
 				panic(r)
 			}
-			res = zero(instr.Type())
+			res = Tainted{Why: "initialiser call at " + in.posOf(instr.Pos())}
 		}
 	}()
 	return in.callValue(fn, args, instr.Pos())
+}
+
+// taintStep propagates Tainted operands through an instruction executed during
+// package initialisation.
+func (fr *frame) taintStep(instr ssa.Instruction) (bool, int) {
+	var why string
+	tainted := false
+	for _, op := range instr.Operands(nil) {
+		if *op == nil {
+			continue
+		}
+		switch (*op).(type) {
+		case *ssa.Function, *ssa.Builtin, *ssa.Const, *ssa.Global:
+			continue
+		}
+		if v, ok := fr.env[*op]; ok {
+			if t, bad := v.(Tainted); bad {
+				tainted, why = true, t.Why
+			}
+		}
+	}
+	if !tainted {
+		return false, 0
+	}
+	switch x := instr.(type) {
+	case *ssa.Store:
+		if p, ok := fr.get(x.Addr).(*Value); ok && p != nil {
+			*p = Tainted{Why: why}
+		}
+		return true, kNext
+	case *ssa.If, *ssa.Return, *ssa.Panic, *ssa.Jump, *ssa.RunDefers, *ssa.Defer, *ssa.MapUpdate, *ssa.Send, *ssa.Go:
+		if _, isRet := x.(*ssa.Return); isRet {
+			fr.result = Tainted{Why: why}
+			return true, kReturn
+		}
+		fr.in.goPanic(instr.Pos(), "initialiser depends on an unmodelled value ("+why+")", nil)
+	}
+	if v, ok := instr.(ssa.Value); ok {
+		fr.env[v] = Tainted{Why: why}
+		return true, kNext
+	}
+	return true, kNext
 }
 
 // CallEntry runs a harness entry point (no arguments).
